@@ -284,7 +284,7 @@ impl Group for Nested {
 /// C10 through the control socket: whatever was said to a running instance before — commands that were refused,
 /// `wait`s that are still in flight — a shutdown completes once every *registered* waiter has been told and has answered.
 pub struct Ctl;
-const CTL_MSGS: [&str; 10] = ["ping", "ping a b", "wait", "wait x", "wait please now", "shutdown bogus", "shutdown no-wait extra", "nonexistent", "!ff", "clear nothing"];
+const CTL_MSGS: [&str; 11] = ["ping", "ping a b", "wait", "wait x", "wait please now", "shutdown bogus", "shutdown no-wait extra", "nonexistent", "!ff", "clear nothing", "wait-gone"];
 impl Group for Ctl {
     fn timing_sensitive(&self) -> bool {
         true
@@ -293,7 +293,7 @@ impl Group for Ctl {
         "c10.ctl"
     }
     fn rule(&self) -> &'static str {
-        "a fresh instance (one listener, control socket) per case; 0-6 control messages drawn from {ping, wait (stays in flight until shutdown), wait with arguments (refused), shutdown with a bad argument (refused), unknown command, non-UTF-8, clear with a bad argument}; every message except a well-formed wait must be answered within 3 s; then shutdown (control message or Manager::shutdown); observations as in c10.scn (wait() unresolved before, resolved within 5 s after, port closed, count 0, every in-flight wait released) compared with the model's run with one hookRegister/hookAck per well-formed wait; non-trivial = a refused message or an in-flight wait preceded the shutdown"
+        "a fresh instance (one listener, control socket) per case; 0-6 control messages drawn from {ping, wait (stays in flight until shutdown), wait whose client disconnects before the shutdown, wait with arguments (refused), shutdown with a bad argument (refused), unknown command, non-UTF-8, clear with a bad argument}; every message except a well-formed wait must be answered within 3 s; then shutdown (control message or Manager::shutdown); observations as in c10.scn (wait() unresolved before, resolved within 5 s after, port closed, count 0, every in-flight wait released) compared with the model's run with one hookRegister/hookAck per well-formed wait; non-trivial = a refused message or an in-flight wait preceded the shutdown"
     }
     fn parallel(&self) -> bool {
         false
@@ -304,6 +304,10 @@ impl Group for Ctl {
             "c10.ctl mgr [3]".to_owned(),
             "c10.ctl ctl [4,2]".to_owned(),
             "c10.ctl mgr [5,6,7,8,9]".to_owned(),
+            // a `wait` whose client has gone away before the shutdown: its hook is still answered, the shutdown completes
+            "c10.ctl mgr [10]".to_owned(),
+            "c10.ctl ctl [2,10,0]".to_owned(),
+            "c10.ctl mgr [10,10,2]".to_owned(),
         ];
         for _ in 0..n {
             let k = rng.below(7);
@@ -313,7 +317,7 @@ impl Group for Ctl {
     }
     fn driver_line(&self, line: &str) -> String {
         let idx: Vec<usize> = parse_list(line.split(' ').nth(2).unwrap()).unwrap().iter().map(|s| s.parse().unwrap()).collect();
-        let k = idx.iter().filter(|i| CTL_MSGS[**i] == "wait").count();
+        let k = idx.iter().filter(|i| CTL_MSGS[**i] == "wait" || CTL_MSGS[**i] == "wait-gone").count();
         let regs = vec!["hookRegister"; k].join(",");
         let acks = vec!["hookAck"; k].join(",");
         let pre = format!("{}{}lLoadF,lSetWaker,lRecheckF", regs, if k > 0 { "," } else { "" });
@@ -359,6 +363,21 @@ impl Group for Ctl {
         let mut waits = Vec::new();
         for i in &idx {
             let m = CTL_MSGS[*i];
+            if m == "wait-gone" {
+                // the request is written, the write side closed (that is what ends a request), and then the client is gone
+                use std::io::Write;
+                match std::os::unix::net::UnixStream::connect(&path) {
+                    Ok(mut c) => {
+                        let _ = c.write_all(b"wait");
+                        let _ = c.shutdown(std::net::Shutdown::Write);
+                        std::thread::sleep(Duration::from_millis(60));
+                        drop(c);
+                    }
+                    Err(_) => problems.push("`wait-gone`: could not connect to the control socket".into()),
+                }
+                std::thread::sleep(Duration::from_millis(20));
+                continue;
+            }
             if m == "wait" {
                 let path = path.clone();
                 waits.push(rt.spawn(async move { kvarn_signal::unix::send_to(b"wait".to_vec(), &path).await }));
